@@ -121,6 +121,9 @@ static int add_token(char *tok, int *kind_bad)
 	case 'w':
 		b = h_hex(arg, &len); if (!b) return 0; if (len != 2) { free(b); return 0; }
 		add_line(VBI_SLICED_WSS_625, 23, b, 2); free(b); return 1;
+	case 'j':	/* WSS CPR-1204 (525-line systems): three bytes, vbi_decode_wss_cpr1204 */
+		b = h_hex(arg, &len); if (!b) return 0; if (len != 3) { free(b); return 0; }
+		add_line(VBI_SLICED_WSS_CPR1204, 20, b, 3); free(b); return 1;
 	case 'n': case 'c': {
 		int i, sum; uint8_t pr[2]; int ty = tok[0] == 'n' ? 1 : 2; int ok = 1;
 		b = h_hex(arg, &len); if (!b) return 0;
@@ -188,8 +191,8 @@ int main(void)
 		} else if (H_IS(0, "frame")) {
 			if (h_ntok < 2 || !nat(h_tok[1], &v)) printf("rej parse\n");
 			else do_frame(v, h_tok + 2, h_ntok - 2, NULL);
-		} else if (H_IS(0, "vps") || H_IS(0, "p830") || H_IS(0, "wss") || H_IS(0, "xdsname") || H_IS(0, "xdscall") || H_IS(0, "page")) {
-			const char *pre = H_IS(0, "vps") ? "v:" : H_IS(0, "p830") ? "t:" : H_IS(0, "wss") ? "w:" :
+		} else if (H_IS(0, "vps") || H_IS(0, "p830") || H_IS(0, "wss") || H_IS(0, "cpr") || H_IS(0, "xdsname") || H_IS(0, "xdscall") || H_IS(0, "page")) {
+			const char *pre = H_IS(0, "vps") ? "v:" : H_IS(0, "p830") ? "t:" : H_IS(0, "wss") ? "w:" : H_IS(0, "cpr") ? "j:" :
 				H_IS(0, "xdsname") ? "n:" : H_IS(0, "xdscall") ? "c:" : "p:";
 			if (h_ntok != 3) printf("rej parse\n");
 			else {
